@@ -399,7 +399,7 @@ func fieldAlwaysMade(c *core.Ctx, ref core.FieldRef) (bool, string) {
 			}
 			allocs++
 			if !ctor[fn] {
-				bad = append(bad, core.FuncName(fn)+" allocates "+ref.Struct.Obj().Name()+" without making ."+ref.Name)
+				bad = append(bad, core.FuncName(fn)+" allocates "+core.StructName(ref.Struct)+" without making ."+ref.Name)
 			}
 		})
 	}
